@@ -390,7 +390,7 @@ def _boundary(ck, p, byk):
         ck.refuted(rule, "anchor-missing:lexer-table", f.span, "the lexer table with lex_number in it was not found")
         return
     before = table[:[i for i, n in enumerate(table) if n.endswith("::lex_number")][0]]
-    ck.floor(rule, "table entries tried before lex_number", len(before), 5)
+    ck.floor(rule, "table entries tried before lex_number", len(before), 3)
     for nm in before:
         g = p.fns.get(nm)
         if g is None:
@@ -556,7 +556,7 @@ def _untouched(ck, p, byk):
         hit = sorted(c for c in consts if c.lower() in ("st", "nd", "rd", "th"))
         if hit:
             offenders.append((last(g.name), hit, t["ln"]))
-    ck.floor(rule, "Document passes that run before condense_number_suffixes", n_pass, 4)
+    ck.floor(rule, "Document passes that run before condense_number_suffixes", n_pass, 2)
     if offenders:
         nm, hit, ln = offenders[0]
         ck.refuted(rule, "Document::parse:before-number-suffixes", f.loc(ln), "%s runs before condense_number_suffixes and matches the bare word(s) %s: an ordinal like `2st.` loses its suffix word to that pass (merged with its neighbour), so the number-suffix rule never sees it or sees it with the wrong extent" % (nm, hit))
